@@ -76,7 +76,18 @@ def handleBad (inp impl : List String) : String :=
     | none => bad l.id "endpoint"
     | some e =>
       match payloadOf l with
-      | none => out l.id false "na" "bad-undecodable-framing" "-" "bad-framing"
+      | none =>
+        if l.framing.broken then
+          -- a chunked coding that cannot be undone (`Extract.dechunk` fails, as the generator
+          -- meant it to): the body cannot be decoded into anything; dropshot answers 400 as soon
+          -- as an extractor reads it, and no handler runs
+          let is4xx := 400 ≤ l.status && l.status < 500
+          -- (a `StreamingBody` handler is the one reading the stream: it runs, meets the error
+          -- while reading, and the harness's handler answers with it)
+          let notRun := l.delta == "0" || l.ep == "stream"
+          out l.id (l.status == 400) (b2s (is4xx && notRun && l.errBody == "1" && l.followup == "1"))
+            s!"bad-{l.ep}-broken-chunked" "-" "400"
+        else out l.id false "na" "bad-undecodable-framing" "-" "bad-framing"
       | some (payload, reenc) =>
         let vAsIs := verdict l e payload false
         let vSpec := verdict l e payload true
